@@ -109,6 +109,10 @@ func destOfAddr(fn *ssa.Function, addr ssa.Value) string {
 			return f.Name()
 		}
 		if a, ok := root.(*ssa.Alloc); ok {
+			// a local object is named after its type, not after the variable
+			if n := namedOf(a.Type()); n != nil {
+				return "obj:" + n.Obj().Name() + "." + f.Name()
+			}
 			return "obj:" + a.Comment + "." + f.Name()
 		}
 		return "?." + f.Name()
@@ -394,8 +398,8 @@ func extractLayout(prog *core.Program, fn *ssa.Function) []layPath {
 		loopAt[l.Header] = l
 	}
 	readDest := map[ssa.Instruction]bool{}
-	var walk func(b *ssa.BasicBlock, p layPath, off int, seen map[*ssa.BasicBlock]bool)
-	walk = func(b *ssa.BasicBlock, p layPath, off int, seen map[*ssa.BasicBlock]bool) {
+	var walk func(b, prev *ssa.BasicBlock, p layPath, off int, seen map[*ssa.BasicBlock]bool)
+	walk = func(b, prev *ssa.BasicBlock, p layPath, off int, seen map[*ssa.BasicBlock]bool) {
 		if len(out) > 64 {
 			return
 		}
@@ -426,7 +430,7 @@ func extractLayout(prog *core.Program, fn *ssa.Function) []layPath {
 							seen[lb] = true
 						}
 						delete(seen, s)
-						walk(s, p, off, seen)
+						walk(s, b, p, off, seen)
 					}
 				}
 				return
@@ -465,6 +469,24 @@ func extractLayout(prog *core.Program, fn *ssa.Function) []layPath {
 			p.OK = true
 			if n := len(t.Results); n > 0 {
 				ev := t.Results[n-1]
+				// a result merged from several paths (`r = nil; break L` / `r = err; break L` of an inlined helper): the
+				// value that arrives on this path
+				for depth := 0; depth < 4; depth++ {
+					phi, isPhi := ev.(*ssa.Phi)
+					if !isPhi || phi.Block() != b || prev == nil {
+						break
+					}
+					resolved := false
+					for i, pb := range b.Preds {
+						if pb == prev {
+							ev, resolved = phi.Edges[i], true
+							break
+						}
+					}
+					if !resolved {
+						break
+					}
+				}
 				if c, isConst := ev.(*ssa.Const); isConst && c.Value == nil {
 					p.OK = true
 				} else if types.Identical(ev.Type(), types.Universe.Lookup("error").Type()) {
@@ -491,9 +513,9 @@ func extractLayout(prog *core.Program, fn *ssa.Function) []layPath {
 			if v, eqNil, ok := core.NilCompare(t.Cond); ok && types.Identical(v.Type(), types.Universe.Lookup("error").Type()) {
 				// follow only "no error"
 				if eqNil {
-					walk(b.Succs[0], p, off, seen)
+					walk(b.Succs[0], b, p, off, seen)
 				} else {
-					walk(b.Succs[1], p, off, seen)
+					walk(b.Succs[1], b, p, off, seen)
 				}
 				return
 			}
@@ -503,16 +525,16 @@ func extractLayout(prog *core.Program, fn *ssa.Function) []layPath {
 			pf.Events = append([]layEvent(nil), p.Events...)
 			pt.Guards = append(append([]string(nil), p.Guards...), g)
 			pf.Guards = append(append([]string(nil), p.Guards...), negGuard(g))
-			walk(b.Succs[0], pt, off, seen)
-			walk(b.Succs[1], pf, off, seen)
+			walk(b.Succs[0], b, pt, off, seen)
+			walk(b.Succs[1], b, pf, off, seen)
 		default:
 			for _, s := range b.Succs {
-				walk(s, p, off, seen)
+				walk(s, b, p, off, seen)
 			}
 		}
 	}
 	if len(fn.Blocks) > 0 {
-		walk(fn.Blocks[0], layPath{}, 0, map[*ssa.BasicBlock]bool{})
+		walk(fn.Blocks[0], nil, layPath{}, 0, map[*ssa.BasicBlock]bool{})
 	}
 	return out
 }
